@@ -6,7 +6,7 @@ import json, os, subprocess
 V = "/verif"
 # id -> (technique, level text, level note, design ref)
 CLAIMED = {
- "C19": ("stateful property-based testing (proptest call sequences) against a naive relabel-on-union partition model; thorough tier adds a coverage-guided libFuzzer campaign whose inputs are decoded structurally into operation histories for the same interpreter and model",
+ "C19": ("stateful property-based testing (proptest call sequences) against a naive relabel-on-union partition model; thorough tier adds a coverage-guided libFuzzer campaign whose inputs are decoded structurally into operation histories for the same interpreter and model (C01-C04, C14, C19 also enumerate every history of 4-6 operations over a small alphabet)",
          "Generated call histories over UnionFind<u8|u16|u32|usize>, every return value and the full find() vector compared with a reference partition after every call; failures shrink to a minimal call sequence that is saved as a replay file.",
          "Trusted: the 40-line reference partition in harness/src/props/c19.rs; proptest's generators. Exploration only: held on the histories generated, not a proof.",
          "DESIGN.md section 5, C19"),
@@ -18,49 +18,49 @@ def C(tech, what, trusted, ref):
             ref)
 
 CLAIMED.update({
- "C08": C("property-based testing: generated graphs + visitor control scripts; oracle = naive reachability / hop distances / predecessor fixpoint, an independent event-stream replayer and a reference recursion",
+ "C08": C("property-based testing: generated graphs + visitor control scripts; oracle = naive reachability / hop distances / predecessor fixpoint, an independent event-stream replayer and a reference recursion; bounded-exhaustive enumeration of a small scope and (thorough tier) a coverage-guided libFuzzer campaign on structurally decoded cases use the same oracles",
           "Random multigraphs in 10 storage/adaptor encodings; Dfs/Bfs/DfsPostOrder/Topo outputs and depth_first_search event streams (under Continue/Prune/Break scripts) compared with definitional oracles.",
           "the naive closure/fixpoint helpers in harness/src/agraph.rs and the stream replayer in props/c08.rs", "DESIGN.md section 5, C08"),
- "C09": C("property-based testing: generated graphs; oracle = Warshall closure, mutual-reachability classes, forest edge count, propagation 2-colouring",
+ "C09": C("property-based testing: generated graphs; oracle = Warshall closure, mutual-reachability classes, forest edge count, propagation 2-colouring; bounded-exhaustive enumeration of a small scope and (thorough tier) a coverage-guided libFuzzer campaign on structurally decoded cases use the same oracles",
           "Random directed/undirected multigraphs in 8 encodings; kosaraju_scc/tarjan_scc/TarjanScc, connected_components, has_path_connecting, is_cyclic_*, is_bipartite_undirected, toposort (fresh and reused DfsSpace) and condensation compared with brute-force definitions.",
           "the Warshall/closure helpers in harness/src/agraph.rs", "DESIGN.md section 5, C09"),
- "C10": C("property-based testing: generated weighted graphs; oracle = fixpoint distances and a dynamic programme over walks",
+ "C10": C("property-based testing: generated weighted graphs; oracle = fixpoint distances and a dynamic programme over walks; bounded-exhaustive enumeration of a small scope and (thorough tier) a coverage-guided libFuzzer campaign on structurally decoded cases use the same oracles",
           "Random non-negative weighted multigraphs in 10 encodings x 4 cost types; dijkstra (with and without goal), astar (goal sets; zero / exact / random admissible-inconsistent heuristics) and k_shortest_path compared with independent exact oracles.",
           "the fixpoint relaxation in harness/src/agraph.rs and the k-walk DP in props/c10.rs", "DESIGN.md section 5, C10"),
- "C11": C("property-based testing: generated graphs with negative costs incl. a dense-negative-DAG class; oracle = exact i64 fixpoint Bellman-Ford from every source; a bounded-cost class (i8 over its whole range) with the domain restricted by construction to what bounded arithmetic can represent",
+ "C11": C("property-based testing: generated graphs with negative costs incl. a dense-negative-DAG class; oracle = exact i64 fixpoint Bellman-Ford from every source; a bounded-cost class (i8 over its whole range) with the domain restricted by construction to what bounded arithmetic can represent; bounded-exhaustive enumeration of a small scope and (thorough tier) a coverage-guided libFuzzer campaign on structurally decoded cases use the same oracles",
           "bellman_ford, spfa, floyd_warshall, floyd_warshall_path and find_negative_cycle: verdicts, distances, sentinel values, predecessor trees / prev matrices and returned cycles compared with the exact oracle on 10 encodings and 5 cost types.",
           "the fixpoint relaxation in harness/src/agraph.rs", "DESIGN.md section 5, C11"),
- "C12": C("property-based testing: generated weighted multigraphs; oracle = structural forest predicate + naive Prim optimum cross-checked by exhaustive subset enumeration; graphs of 2..900 nodes against a sort-based Kruskal oracle",
+ "C12": C("property-based testing: generated weighted multigraphs; oracle = structural forest predicate + naive Prim optimum cross-checked by exhaustive subset enumeration; graphs of 2..900 nodes against a sort-based Kruskal oracle; bounded-exhaustive enumeration of a small scope and (thorough tier) a coverage-guided libFuzzer campaign on structurally decoded cases use the same oracles",
           "min_spanning_tree element streams (and the graph built from them) and min_spanning_tree_prim on 10 encodings, i32 and exact f64 weights: node order, edge membership, acyclicity, |V|-c edges and minimum total weight.",
           "the naive Prim / subset enumeration in props/c12.rs", "DESIGN.md section 5, C12"),
- "C13": C("property-based testing: generated graph pairs (positive, near-miss, 2-switch, independent) + metamorphic relabeling; oracle = exhaustive enumeration of injective maps under the definition",
+ "C13": C("property-based testing: generated graph pairs (positive, near-miss, 2-switch, independent) + metamorphic relabeling; oracle = exhaustive enumeration of injective maps under the definition; bounded-exhaustive enumeration of a small scope uses the same oracles",
           "is_isomorphic, is_isomorphic_subgraph, the _matching variants (three predicate kinds) and subgraph_isomorphisms_iter (set equality, no duplicates, termination) on Graph and GraphMap, repeated after relabeling both arguments.",
           "the 40-line backtracking enumerator in props/c13.rs", "DESIGN.md section 5, C13"),
- "C15": C("property-based testing: generated graphs incl. blossom gadgets / flow networks; oracle = validity predicate from mate() + bitmask-DP optimum; capacity/conservation predicate + exhaustive min-cut enumeration",
+ "C15": C("property-based testing: generated graphs incl. blossom gadgets / flow networks; oracle = validity predicate from mate() + bitmask-DP optimum; capacity/conservation predicate + exhaustive min-cut enumeration; bounded-exhaustive enumeration of a small scope and (thorough tier) a coverage-guided libFuzzer campaign on structurally decoded cases use the same oracles",
           "greedy_matching/maximum_matching on 10 encodings (all Matching accessors cross-checked, size equal to the DP optimum on undirected storage) and ford_fulkerson on Graph and StableGraph with node and edge vacancies (u32 and exact f64 capacities, every s != t).",
           "the bitmask DP and the cut enumeration in props/c15.rs", "DESIGN.md section 5, C15"),
- "C16": C("property-based testing: generated graphs; oracle = vertex-deletion reachability (dominance relation, articulation points) by brute force",
+ "C16": C("property-based testing: generated graphs; oracle = vertex-deletion reachability (dominance relation, articulation points) by brute force; bounded-exhaustive enumeration of a small scope and (thorough tier) a coverage-guided libFuzzer campaign on structurally decoded cases use the same oracles",
           "dominators::simple_fast for every root on 6 encodings (all five accessors) and articulation_points on 5 encodings compared with the path-based definitions.",
           "the deletion-reachability helpers in props/c16.rs", "DESIGN.md section 5, C16"),
- "C20": C("property-based testing: seven generated-input sub-checks; oracles = subset enumeration (cliques), validity predicates (colouring, feedback arcs), Warshall closure/reduction, DFS path enumeration, Dreyfus-Wagner optimum + tree predicate (Steiner), algebraic laws and relabeling equivariance (PageRank)",
+ "C20": C("property-based testing: seven generated-input sub-checks; oracles = subset enumeration (cliques), validity predicates (colouring, feedback arcs), Warshall closure/reduction, DFS path enumeration, Dreyfus-Wagner optimum + tree predicate (Steiner), algebraic laws and relabeling equivariance (PageRank); bounded-exhaustive enumeration of a small scope uses the same oracles",
           "maximal_cliques, dsatur_coloring, greedy_feedback_arc_set, dag_to_toposorted_adjacency_list + dag_transitive_reduction_closure, all_simple_paths, steiner_tree and page_rank each compared with its defining specification on random graphs of its documented domain, several storage types incl. vacancies.",
           "the brute-force oracles in props/c20.rs", "DESIGN.md section 5, C20"),
- "C01": C("stateful (model-based) property-based testing: generated operation histories, reference multigraph written from the rustdoc, full observation compared after every step; thorough tier adds a coverage-guided libFuzzer campaign whose inputs are decoded structurally into operation histories for the same interpreter and model",
+ "C01": C("stateful (model-based) property-based testing: generated operation histories, reference multigraph written from the rustdoc, full observation compared after every step; thorough tier adds a coverage-guided libFuzzer campaign whose inputs are decoded structurally into operation histories for the same interpreter and model (C01-C04, C14, C19 also enumerate every history of 4-6 operations over a small alphabet)",
           "Operation histories over Graph for both edge types and four index widths (incl. histories that fill the u8 index space); every public query and iterator, detached walkers and the raw linked lists are compared with a reference multigraph after every operation.",
           "the reference model and observation comparison in harness/src/gmodel.rs and props/c01.rs", "DESIGN.md section 5, C01"),
- "C02": C("stateful (model-based) property-based testing under two build profiles: generated operation histories incl. failing calls, slot model with free index choice, full observation after every step; thorough tier adds a coverage-guided libFuzzer campaign whose inputs are decoded structurally into operation histories for the same interpreter and model",
+ "C02": C("stateful (model-based) property-based testing under two build profiles: generated operation histories incl. failing calls, slot model with free index choice, full observation after every step; thorough tier adds a coverage-guided libFuzzer campaign whose inputs are decoded structurally into operation histories for the same interpreter and model (C01-C04, C14, C19 also enumerate every history of 4-6 operations over a small alphabet)",
           "Operation histories over StableGraph (both edge types, four index widths, u8 filled to its limit), run with debug assertions on and off; every query/iterator/walker/bound is compared with a slot model after every operation, failing calls must change nothing, any panic on a valid call is a violation.",
           "the slot model and observation comparison in harness/src/gmodel.rs and props/c02.rs", "DESIGN.md section 5, C02"),
- "C03": C("stateful (model-based) property-based testing: generated operation histories over a small key pool, BTreeSet/BTreeMap reference model, full observation after every step; thorough tier adds a coverage-guided libFuzzer campaign whose inputs are decoded structurally into operation histories for the same interpreter and model",
+ "C03": C("stateful (model-based) property-based testing: generated operation histories over a small key pool, BTreeSet/BTreeMap reference model, full observation after every step; thorough tier adds a coverage-guided libFuzzer campaign whose inputs are decoded structurally into operation histories for the same interpreter and model (C01-C04, C14, C19 also enumerate every history of 4-6 operations over a small alphabet)",
           "Operation histories over GraphMap for two key types, both edge types and four hashers (incl. an all-colliding one); every query for every pool key/pair, the iterators and the compact index numbering are compared with the model after every operation.",
           "the 30-line reference model in props/c03.rs", "DESIGN.md section 5, C03"),
- "C04": C("stateful (model-based) property-based testing: generated operation histories across capacity steps and id reuse, BTreeMap reference model with free id choice, full observation after every step; thorough tier adds a coverage-guided libFuzzer campaign whose inputs are decoded structurally into operation histories for the same interpreter and model",
+ "C04": C("stateful (model-based) property-based testing: generated operation histories across capacity steps and id reuse, BTreeMap reference model with free id choice, full observation after every step; thorough tier adds a coverage-guided libFuzzer campaign whose inputs are decoded structurally into operation histories for the same interpreter and model (C01-C04, C14, C19 also enumerate every history of 4-6 operations over a small alphabet)",
           "Operation histories over MatrixGraph in 12 configurations (edge type x null element x index width), crossing the 4/8/16/32/64 matrix growth steps and filling the u8 index space; all queries and iterators compared with a map model after every operation; documented panics must leave the graph unchanged.",
           "the BTreeMap model in props/c04.rs", "DESIGN.md section 5, C04"),
- "C05": C("stateful (model-based) property-based testing: generated insertion histories (Csr rows grown through the 32-entry binary-search cutoff, adj::List with saved edge indices), row-map / Vec<Vec<_>> reference models; differential check of from_sorted_edges against edge-by-edge construction; thorough tier adds a coverage-guided libFuzzer campaign whose inputs are decoded structurally into operation histories for the same interpreter and model",
+ "C05": C("stateful (model-based) property-based testing: generated insertion histories (Csr rows grown through the 32-entry binary-search cutoff, adj::List with saved edge indices), row-map / Vec<Vec<_>> reference models; differential check of from_sorted_edges against edge-by-edge construction; thorough tier adds a coverage-guided libFuzzer campaign whose inputs are decoded structurally into operation histories for the same interpreter and model (C01-C04, C14, C19 also enumerate every history of 4-6 operations over a small alphabet)",
           "Insertion histories over Csr (both edge types, four index widths) and adj::List (four widths) compared with reference models after every step, plus from_sorted_edges on sorted and perturbed edge lists.",
           "the reference models in props/c05.rs", "DESIGN.md section 5, C05"),
- "C14": C("stateful (model-based) property-based testing: generated operation histories on both inner graph types; reference digraph + Warshall reachability as oracle for acceptance, plus order-bookkeeping invariants after every step; thorough tier adds a coverage-guided libFuzzer campaign whose inputs are decoded structurally into operation histories for the same interpreter and model",
+ "C14": C("stateful (model-based) property-based testing: generated operation histories on both inner graph types; reference digraph + Warshall reachability as oracle for acceptance, plus order-bookkeeping invariants after every step; thorough tier adds a coverage-guided libFuzzer campaign whose inputs are decoded structurally into operation histories for the same interpreter and model (C01-C04, C14, C19 also enumerate every history of 4-6 operations over a small alphabet)",
           "Operation histories over Acyclic<DiGraph> and Acyclic<StableDiGraph>: every insertion accepted iff it keeps the graph acyclic (right error kind, is_valid_edge for all pairs), rejected calls change nothing, removals of present and absent nodes keep the order consistent; try_from_graph/TryFrom accept exactly acyclic graphs.",
           "the slot model of gmodel.rs and the Warshall closure in agraph.rs", "DESIGN.md section 5, C14"),
  "C06": C("property-based testing with trait-generic oracles: generated mutated states of all six graph types, ~20 adaptor views each, every visit trait compared with the expected (reversed / symmetrised / induced / restricted) abstract graph",
@@ -72,7 +72,7 @@ CLAIMED.update({
  "C17": C("property-based testing under two build profiles: round-trip oracle (full C01/C02 observation of the deserialised graph equals the original's) + structured JSON-value mutations and byte-level bincode mutations judged by an accept-or-reject oracle (accepted graphs must pass the full self-consistency observation and a model-checked follow-up script); libFuzzer campaign on the same oracle in the thorough tier",
           "Round trips of Graph / StableGraph (with node and edge vacancies, four index widths, near the u8 limit) / GraphMap through serde_json and bincode, across types and index widths; hostile JSON and bincode input must be rejected or yield a fully consistent graph, never a panic.",
           "the observation machinery of gmodel.rs, serde_json and bincode", "DESIGN.md section 5, C17"),
- "C18": C("property-based testing: differential against an independent graph6 encoder + decode/re-encode round trip on five graph types; Dot output parsed by a hand-written DOT-subset parser and compared statement by statement, labels un-escaped and compared with the formatter's output",
+ "C18": C("property-based testing: differential against an independent graph6 encoder + decode/re-encode round trip on five graph types; Dot output parsed by a hand-written DOT-subset parser and compared statement by statement, labels un-escaped and compared with the formatter's output; bounded-exhaustive enumeration of a small scope uses the same oracles",
           "graph6 strings of simple undirected graphs (0..=70 nodes, around the 62/63 header switch) in five storage types compared with an independent encoder, decoded and re-encoded; Dot output for all Config subsets, four formatting modes and adversarial weight strings (written at once and char by char) parsed and compared with the graph.",
           "the 30-line graph6 encoder and the DOT tokenizer/parser in props/c18.rs", "DESIGN.md section 5, C18"),
 })
